@@ -52,6 +52,7 @@ type Scenario struct {
 	ShutdownAt time.Duration
 	Bound      int // preemption bound override (0: tier default)
 	ZeroBound  bool
+	QZero      bool // quick tier: bound 0 (thorough: TB / default)
 	QB, TB     int // per-tier preemption bound overrides
 	Pack       []*Scenario // a pack runs its members one after the other in one worker
 }
